@@ -68,6 +68,7 @@ def units(tier):
         for rep in pools.REPS:
             us.append(("dump_forms", kind, rep))
             us.append(("dump_points", kind, rep))
+            us.append(("dump_yearedge", kind, rep))
     return us
 
 
@@ -297,7 +298,7 @@ def run_unit(unit, ctx):
             check_rezone(ctx, kind, c, pdesc, p, inst, hsh, (0, 0), how="to_utc")
             for so in SEAM_OFFSETS[2:4] if ctx.tier == "quick" else SEAM_OFFSETS:
                 check_rezone(ctx, kind, c, pdesc, p, inst, hsh, M.split_offset_minutes(so), how="to_local")
-    elif u in ("dump_forms", "dump_points"):
+    elif u in ("dump_forms", "dump_points", "dump_yearedge"):
         _, kind, rep = unit
         impl.set_mode(A.MODE_OF[kind])
         c = M.cal(kind)
@@ -307,6 +308,12 @@ def run_unit(unit, ctx):
             pts = pools.point_descs(kind, rep, DUMP_POINT_TIMES, [[0, 0], [-5, -30]],
                                     [2000, -1] if ctx.tier == "quick" else [2000, 2004, -1, 10000], "small")
             zls = ZONE_LITERALS
+        elif u == "dump_yearedge":
+            # days where week-year and calendar year differ (or nearly), within an hour of midnight, so that the literal
+            # zone moves the local date across the week-year / year boundary in either direction
+            pts = pools.point_descs(kind, rep, pools.T_EDGE, pools.Z_EDGE,
+                                    pools.Y_WEEKCYCLE_Q if ctx.tier == "quick" else pools.Y_WEEKCYCLE, "yearedge")
+            zls = ["Z", "+01", "-0100", "+01:00", "-00:30", "+0545"]
         else:
             pts = pools.point_descs(kind, rep, DUMP_POINT_TIMES[:4], [[0, 0], [5, 45], [-99, -59]], A.Y_S,
                                     "small" if ctx.tier == "quick" else "boundary")
